@@ -25,6 +25,10 @@ class NotFound(Exception):
     pass
 
 
+class Failed(Exception):
+    pass
+
+
 def fallbacks(f):
     return [f] if f == "generic" else [f, "generic"]
 
@@ -87,6 +91,8 @@ class Ref:
             return "Refused"
         except NotFound:
             return "NotFound"
+        except Failed:
+            return "Other:RuntimeError"
         finally:
             self.loaded = None
 
@@ -210,6 +216,19 @@ class Ref:
         for tk in [tk for tk, tv in self.tags.items() if tk[0] == k[0] and tk[2] == n and tk[3] == f and tv == v]:
             del self.tags[tk]
 
+    def _remove(self, c):
+        f, n, v = c.get("flavor", "Linux"), c["name"], c["version"]
+        k = self.find(n, v, f, range(NST))
+        if k is None:
+            raise NotFound()
+        d = self.decl[k][0]
+        self._undeclare({"flavor": f, "name": n, "version": v, "noaction": c.get("noaction")})
+        if not c.get("noaction"):
+            d = tuple(d) if isinstance(d, (list, tuple)) else d
+            if d not in self.dirs:
+                raise Failed()                      # undeclared, but there was no directory left to delete
+            self.dirs.discard(d)                    # the installation directory goes too
+
     def _assignTag(self, c):
         f, n, v = c.get("flavor", "Linux"), c["name"], c["version"]
         k = self.find(n, v, f, range(NST) if c.get("stack") is None else [c["stack"]])
@@ -258,6 +277,9 @@ def footprint(c):
             return (lambda d: False, lambda r: r[1] == t and r[2] == n and r[3] == f)
         return (lambda d: d[1] == n and d[3] == f and (v is None or d[2] == v),
                 lambda r: r[2] == n and r[3] == f and (v is None or r[4] == v or r[1] == t))
+    if op == "remove":
+        v = c["version"]
+        return (lambda d: d[1] == n and d[2] == v and d[3] == f, lambda r: r[2] == n and r[3] == f and r[4] == v)
     if op in ("assignTag", "unassignTag"):
         t = c["tag"]
         return (lambda d: False, lambda r: r[1] == t and r[2] == n and r[3] == f)
